@@ -15,8 +15,16 @@ def enrich(cfg, rng):
                 rts.append({"address": "10.77.0.0", "subnet_mask": "255.255.0.0", "next_hop_ip_address": "10.0.1.%d" % rng.randint(111, 120), "metric": rng.choice([0.5, 5, 10])})
             if rng.random() < 0.4:
                 n["default_route"] = {"next_hop_ip_address": "10.0.1.%d" % rng.randint(200, 210)}
+        if n["type"] == "router" and rng.random() < 0.5:
+            # the scenario's own rules where a router would otherwise put its default ARP / ICMP permits
+            n.setdefault("acl", {})[22] = {"action": "DENY", "protocol": "ICMP", "src_ip": "10.0.1.%d" % rng.randint(10, 12)}
+            if rng.random() < 0.5:
+                n["acl"][23] = {"action": "PERMIT", "protocol": "TCP", "dst_port": "SSH"}
         if n["type"] in ("computer", "server") and rng.random() < 0.3:
             n.setdefault("users", []).append({"username": "extra_%s" % n["hostname"], "password": "x", "is_admin": rng.random() < 0.5})
+    for l in cfg["simulation"]["network"]["links"]:
+        if rng.random() < 0.25:
+            l["bandwidth"] = rng.choice([2.5, 0.5, 12.75, 100, 1000])
     return cfg
 
 
@@ -65,9 +73,30 @@ def inventory_case(ck, name, cfg, coq_in, build=None):
     try:
         game = build() if build else world.make_game(cfg)
     except Exception as e:
-        ck.count("skipped:does-not-load")
+        if build:        # an episode of a shipped schedule (assembled fine independently) must load
+            ck.violation("scheduled-episode-does-not-load:%s" % type(e).__name__, "%s: the scheduler / loader raised %r" % (name, e), {"scenario": name})
+        else:
+            ck.count("skipped:does-not-load")
         return None
     rows = inv20.actual_rows(game, cfg, it)
+    # "when the scenario is loaded" includes the episode set-up the environment performs on every reset
+    try:
+        game.setup_for_episode(episode=1)
+        rows1 = inv20.actual_rows(game, cfg, it)
+    except Exception as e:
+        ck.violation("episode-setup-raises:%s" % type(e).__name__, "%s: setup_for_episode raised %r" % (name, e), {"scenario": name})
+        rows1 = rows
+    if sorted(rows1) != sorted(rows):
+        from collections import Counter
+        gone = list((Counter(map(tuple, rows)) - Counter(map(tuple, rows1))).elements())
+        new = list((Counter(map(tuple, rows1)) - Counter(map(tuple, rows))).elements())
+        # nodes declared OFF are switched off by the set-up (their row changes on purpose): compare everything else
+        gone = [r for r in gone if r[0] != 1]
+        new = [r for r in new if r[0] != 1]
+        if gone or new:
+            ck.violation("episode-setup-changes-the-declared-inventory:%s" % ",".join(sorted({inv20.ROWNAME.get(r[0], str(r[0])) for r in gone + new})),
+                         "%s: after setup_for_episode the built simulation lost %s and gained %s" % (name, [inv20.describe(r, it) for r in gone[:3]], [inv20.describe(r, it) for r in new[:3]]),
+                         {"scenario": name, "lost": [inv20.describe(r, it) for r in gone[:10]], "gained": [inv20.describe(r, it) for r in new[:10]]})
     coq_in.append((term, inv20.flatten(rows)))
     ck.case(canon=(name,), nontrivial=len(rows) > 10, sample={"scenario": name, "rows": len(rows)} if len(ck.samples) < 4 else None)
     ck.evaluations += len(rows)
